@@ -172,5 +172,37 @@ class SymDec:
     def _unsupported(self, *a):
         raise Unsupported('arithmetic on symbolic decimal')
 
-    __add__ = __radd__ = __sub__ = __rsub__ = __mul__ = __rmul__ = _unsupported
-    __truediv__ = __rtruediv__ = __floordiv__ = __mod__ = __round__ = _unsupported
+    def __mul__(self, o):
+        if isinstance(o, float) and o == int(o):
+            o = int(o)
+        oe = _int_e(o)
+        if oe is None:
+            raise Unsupported('symbolic decimal times non-integer')
+        return SymDec(self.n * oe, self.k, MAX_SIG)
+
+    __rmul__ = __mul__
+
+    def __truediv__(self, o):
+        if isinstance(o, float) and o == int(o):
+            o = int(o)
+        if isinstance(o, int) and o > 0:
+            p = pow10_exponent(o)
+            if p is not None:
+                return SymDec(self.n, self.k + p, MAX_SIG)
+        raise Unsupported('division of a symbolic decimal by %r' % (o,))
+
+    __add__ = __radd__ = __sub__ = __rsub__ = _unsupported
+    __rtruediv__ = __floordiv__ = __mod__ = __round__ = _unsupported
+
+
+def pow10_exponent(o):
+    p = 0
+    while o > 1 and o % 10 == 0:
+        o //= 10
+        p += 1
+    return p if o == 1 else None
+
+
+def symint_truediv(x, o):
+    """SymInt / number"""
+    return SymDec(x.e, 0, MAX_SIG).__truediv__(o)
